@@ -2627,6 +2627,251 @@ def ungroup_by_key(tree: ast.Module) -> bool:
     return changed
 
 
+def inline_lookup_aliases(tree: ast.Module, property_names: set | None = None) -> bool:
+    """A local bound ONCE, at the top level of a function, to an attribute chain of `self` / a parameter / another such local
+    (`problem = self._problem`, `run = self._de.run`, `append = generations.append`, `gsc = tree._gsc`) - the classic
+    hoisting of a lookup out of a loop - is replaced by the chain wherever it is read. Conditions: every attribute of the chain
+    is a plain field or (for the last one, when the local is only ever CALLED) a method - never a property, whose value is
+    computed on each access; the function stores to none of the chain's attributes; the root is not rebound after the binding."""
+    import copy
+
+    property_names = property_names or set()
+    changed = False
+    for fn in [n for n in ast.walk(tree) if isinstance(n, (ast.FunctionDef, ast.AsyncFunctionDef))]:
+        own = list(ast.walk(fn))
+        nested = {id(x) for g in own if isinstance(g, (ast.FunctionDef, ast.AsyncFunctionDef, ast.Lambda)) and g is not fn for x in ast.walk(g)}
+        stores = {}
+        for x in own:
+            if isinstance(x, ast.Name) and isinstance(x.ctx, (ast.Store, ast.Del)):
+                stores[x.id] = stores.get(x.id, 0) + 1
+        attr_stores = {x.attr for x in own if isinstance(x, ast.Attribute) and isinstance(x.ctx, (ast.Store, ast.Del))}
+        params = {a.arg for a in fn.args.posonlyargs + fn.args.args + fn.args.kwonlyargs}
+        for st in list(fn.body):
+            if not (isinstance(st, ast.Assign) and len(st.targets) == 1 and isinstance(st.targets[0], ast.Name) and isinstance(st.value, ast.Attribute)):
+                continue
+            nm = st.targets[0].id
+            chain = st.value
+            attrs = []
+            root = chain
+            while isinstance(root, ast.Attribute):
+                attrs.append(root.attr)
+                root = root.value
+            if not isinstance(root, ast.Name) or nm in params or stores.get(nm, 0) != 1:
+                continue
+            if root.id not in params and stores.get(root.id, 0) != 1:
+                continue  # the root must itself be stable: a parameter or a local bound once
+            if root.id in params and stores.get(root.id, 0) > 0:
+                continue
+            if any(a in attr_stores for a in attrs) or any(a in property_names for a in attrs):
+                continue
+            if attrs[0] in ("options",):
+                continue  # handled by inline_options_alias
+            uses = [x for x in own if isinstance(x, ast.Name) and x.id == nm and isinstance(x.ctx, ast.Load)]
+            if not uses or any(id(x) in nested for x in uses):
+                continue
+            # uses must come after the binding statement (line order inside one function body is enough: top-level binding)
+            if any(getattr(x, "lineno", 0) <= st.lineno for x in uses):
+                continue
+            # a mutable container reached through the alias and ALSO through the chain could be confused by rules that key on
+            # names only when the alias is passed around whole; restrict to reads that are attribute accesses, calls of the
+            # local, subscripts, or plain argument / operand uses
+            fn.body.remove(st)
+
+            class _R(ast.NodeTransformer):
+                def visit_Name(self, node):
+                    if node.id == nm and isinstance(node.ctx, ast.Load):
+                        return ast.copy_location(copy.deepcopy(chain), node)
+                    return node
+
+            for k, b in enumerate(fn.body):
+                fn.body[k] = _R().visit(b)
+            if not fn.body:
+                fn.body.append(ast.Pass())
+            changed = True
+            own = list(ast.walk(fn))
+    if changed:
+        ast.fix_missing_locations(tree)
+    return changed
+
+
+def hoist_leading_walrus(tree: ast.Module) -> bool:
+    """`if (x := E) is None:` -> `x = E` followed by `if x is None:` when the assignment expression is the first thing the test
+    evaluates (the left operand of the comparison, the operand of `not`, the first operand of and / or, or the test itself).
+    Only `if` statements: a `while` test is evaluated again on every iteration."""
+    import copy
+
+    changed = False
+
+    def leading(e):
+        """the NamedExpr evaluated first in e, with a function that rebuilds e around a replacement"""
+        if isinstance(e, ast.NamedExpr) and isinstance(e.target, ast.Name):
+            return e
+        if isinstance(e, ast.Compare):
+            return leading(e.left)
+        if isinstance(e, ast.UnaryOp) and isinstance(e.op, ast.Not):
+            return leading(e.operand)
+        if isinstance(e, ast.BoolOp):
+            return leading(e.values[0])
+        if isinstance(e, ast.Call) and isinstance(e.func, ast.Name) and e.args and not e.keywords:
+            return leading(e.args[0]) if len(e.args) == 1 else None
+        return None
+
+    def rewrite(stmts):
+        nonlocal changed
+        out = []
+        for st in stmts:
+            for fld in ("body", "orelse", "finalbody"):
+                sub = getattr(st, fld, None)
+                if isinstance(sub, list) and sub and isinstance(sub[0], ast.stmt):
+                    setattr(st, fld, rewrite(sub))
+            if isinstance(st, ast.Try):
+                for h in st.handlers:
+                    h.body = rewrite(h.body)
+            if isinstance(st, ast.Match):
+                for c in st.cases:
+                    c.body = rewrite(c.body)
+            if isinstance(st, ast.Expr) and isinstance(st.value, ast.Call) and len(st.value.args) == 1 and not st.value.keywords and isinstance(st.value.args[0], ast.NamedExpr) and isinstance(st.value.args[0].target, ast.Name):
+                # `gens.append((parents := step(parents)))` -> `parents = step(parents)`; `gens.append(parents)` (the callee is a
+                # plain attribute lookup on names, evaluated without side effects before the argument)
+                fnx = st.value.func
+                base_ = fnx
+                while isinstance(base_, ast.Attribute):
+                    base_ = base_.value
+                w = st.value.args[0]
+                if isinstance(base_, ast.Name) and base_.id != w.target.id:
+                    out.append(ast.copy_location(ast.Assign(targets=[ast.Name(id=w.target.id, ctx=ast.Store())], value=w.value), st))
+                    st.value.args[0] = ast.copy_location(ast.Name(id=w.target.id, ctx=ast.Load()), w)
+                    changed = True
+            if isinstance(st, ast.If):
+                w = leading(st.test)
+                if w is not None:
+                    assign = ast.copy_location(ast.Assign(targets=[ast.Name(id=w.target.id, ctx=ast.Store())], value=w.value), st)
+                    name = ast.copy_location(ast.Name(id=w.target.id, ctx=ast.Load()), w)
+
+                    class _R(ast.NodeTransformer):
+                        def visit_NamedExpr(self, node):
+                            return name if node is w else self.generic_visit(node)
+
+                    st.test = _R().visit(st.test)
+                    out.append(assign)
+                    changed = True
+            out.append(st)
+        return out
+
+    for node in ast.walk(tree):
+        if isinstance(node, (ast.FunctionDef, ast.AsyncFunctionDef)):
+            node.body = rewrite(node.body)
+    if changed:
+        ast.fix_missing_locations(tree)
+    return changed
+
+
+def inline_options_alias(tree: ast.Module) -> bool:
+    """`options = self.config.options` (a local name for the configuration's option dictionary, bound once and only read):
+    the reads are reads of `self.config.options`. The alias and the chain denote the same object, nothing in the function
+    rebinds `.config` / `.options`, so substituting it changes nothing - and the option tests keep the spelling the rules read."""
+    import copy
+
+    changed = False
+    for fn in [n for n in ast.walk(tree) if isinstance(n, (ast.FunctionDef, ast.AsyncFunctionDef))]:
+        own = [x for x in ast.walk(fn)]
+        nested = {id(x) for g in own if isinstance(g, (ast.FunctionDef, ast.Lambda)) and g is not fn for x in ast.walk(g)}
+        stores = {}
+        for x in own:
+            if isinstance(x, ast.Name) and isinstance(x.ctx, (ast.Store, ast.Del)):
+                stores[x.id] = stores.get(x.id, 0) + 1
+        if any(isinstance(x, ast.Attribute) and isinstance(x.ctx, (ast.Store, ast.Del)) and x.attr in ("config", "options", "_config") for x in own):
+            continue
+        for st in list(fn.body):
+            if not (isinstance(st, ast.Assign) and len(st.targets) == 1 and isinstance(st.targets[0], ast.Name) and isinstance(st.value, ast.Attribute) and st.value.attr == "options"):
+                continue
+            nm = st.targets[0].id
+            chain = st.value
+            root = chain
+            while isinstance(root, ast.Attribute):
+                root = root.value
+            if not isinstance(root, ast.Name) or stores.get(nm, 0) != 1 or stores.get(root.id, 0) > 0 or nm in {a.arg for a in fn.args.args + fn.args.kwonlyargs}:
+                continue
+            if any(isinstance(x, ast.Name) and x.id == nm and id(x) in nested for x in own):
+                continue
+
+            class _R(ast.NodeTransformer):
+                def visit_Name(self, node):
+                    if node.id == nm and isinstance(node.ctx, ast.Load):
+                        return ast.copy_location(copy.deepcopy(chain), node)
+                    return node
+
+            fn.body.remove(st)
+            for k, b in enumerate(fn.body):
+                fn.body[k] = _R().visit(b)
+            if not fn.body:
+                fn.body.append(ast.Pass())
+            changed = True
+    if changed:
+        ast.fix_missing_locations(tree)
+    return changed
+
+
+def lower_literal_match(tree: ast.Module) -> bool:
+    """`match SUBJECT:` whose subject is a plain name / attribute chain and whose cases are literal values (`case "clip":`,
+    `case 1 | 2:`, `case None:`) with an optional final wildcard and no guards is the if / elif / else chain on
+    `SUBJECT == literal` (`is` for None / True / False) - the form every rule already reads."""
+    changed = False
+
+    def simple_subject(e):
+        while isinstance(e, ast.Attribute):
+            e = e.value
+        return isinstance(e, ast.Name)
+
+    def test_of(subject, pat):
+        import copy
+
+        if isinstance(pat, ast.MatchValue) and isinstance(pat.value, (ast.Constant, ast.Attribute, ast.UnaryOp)):
+            return ast.Compare(left=copy.deepcopy(subject), ops=[ast.Eq()], comparators=[pat.value])
+        if isinstance(pat, ast.MatchSingleton):
+            return ast.Compare(left=copy.deepcopy(subject), ops=[ast.Is()], comparators=[ast.Constant(value=pat.value)])
+        if isinstance(pat, ast.MatchOr):
+            parts = [test_of(subject, q) for q in pat.patterns]
+            if all(p_ is not None for p_ in parts):
+                return ast.BoolOp(op=ast.Or(), values=parts)
+        return None
+
+    def lower(st):
+        if not simple_subject(st.subject) or any(c.guard is not None for c in st.cases):
+            return None
+        arms = []
+        default = None
+        for k, c in enumerate(st.cases):
+            if isinstance(c.pattern, ast.MatchAs) and c.pattern.pattern is None and c.pattern.name is None:
+                if k != len(st.cases) - 1:
+                    return None
+                default = c.body
+                continue
+            t = test_of(st.subject, c.pattern)
+            if t is None:
+                return None
+            arms.append((t, c.body))
+        if not arms:
+            return None
+        node = None
+        for t, body in reversed(arms):
+            node = ast.If(test=t, body=body, orelse=([node] if node is not None else (default or [])))
+        return ast.fix_missing_locations(ast.copy_location(node, st))
+
+    class _M(ast.NodeTransformer):
+        def visit_Match(self, node):
+            nonlocal changed
+            self.generic_visit(node)
+            new = lower(node)
+            if new is None:
+                return node
+            changed = True
+            return new
+
+    _M().visit(tree)
+    return changed
+
+
 def fold_callable_none_tests(tree: ast.Module) -> bool:
     """`self.<method> is not None` / `<lambda> is None` / `<module function> is not None`: a bound method, a lambda and a
     function defined in this module are never None - the test (left behind when a helper with an optional callable parameter was
@@ -2668,7 +2913,12 @@ def fold_callable_none_tests(tree: ast.Module) -> bool:
     return changed
 
 
-def normalize_module(tree: ast.Module, max_rounds: int = 6, returns_arg: dict | None = None, foreign_refs: set | None = None, foreign_defs: set | None = None, inherited: dict | None = None) -> ast.Module:
+def normalize_module(tree: ast.Module, max_rounds: int = 6, returns_arg: dict | None = None, foreign_refs: set | None = None, foreign_defs: set | None = None, inherited: dict | None = None, property_names: set | None = None) -> ast.Module:
+    lower_literal_match(tree)
+    hoist_leading_walrus(tree)
+    inline_options_alias(tree)
+    if property_names is not None:
+        inline_lookup_aliases(tree, property_names)
     for _ in range(max_rounds):
         bn = BlockNormalizer()
         bn.run(tree)
